@@ -5,6 +5,7 @@ import (
 	"fmt"
 	"os"
 	"path/filepath"
+	"sort"
 	"strconv"
 	"strings"
 	"time"
@@ -179,7 +180,8 @@ func (fc *fullCase) judgeFull(tgt *modelredis.Server, slotFilter bool, site stri
 		}
 	}
 	// pre-existing keys whose source record is filtered must simply still be there, untouched
-	for id, old := range fc.planted {
+	for _, id := range sortedKeysV(fc.planted) {
+		old := fc.planted[id]
 		if want[id] {
 			continue
 		}
@@ -194,7 +196,7 @@ func (fc *fullCase) judgeFull(tgt *modelredis.Server, slotFilter bool, site stri
 			return core.Violate("filtered-key-touched", site, "pre-existing key %q (its source record is filtered) changed: %s", clipS([]byte(id[i+1:])), why)
 		}
 	}
-	for db := range tgt.DBs {
+	for _, db := range tgt.DBIDs() {
 		for _, k := range tgt.Keys(db) {
 			if strings.HasPrefix(k, "redis-shake-checkpoint") {
 				continue
@@ -214,7 +216,8 @@ func (fc *fullCase) judgeFull(tgt *modelredis.Server, slotFilter bool, site stri
 			count[fmt.Sprintf("%d/%s", a.DB, a.Args[1])]++
 		}
 	}
-	for k, n := range count {
+	for _, k := range sortedKeysI(count) {
+		n := count[k]
 		if n > 1 {
 			return core.Violate("restored-twice", site, "%s was restored %d times", k, n)
 		}
@@ -471,4 +474,22 @@ func init() {
 		ProbeNames: []string{"parallel_gt1", "target_db", "failure_reported"},
 		FaultNames: []string{"target_error_reply", "latency", "segment_split"},
 	})
+}
+
+func sortedKeysV(m map[string]*rc.Value) []string {
+	var ks []string
+	for k := range m {
+		ks = append(ks, k)
+	}
+	sort.Strings(ks)
+	return ks
+}
+
+func sortedKeysI(m map[string]int) []string {
+	var ks []string
+	for k := range m {
+		ks = append(ks, k)
+	}
+	sort.Strings(ks)
+	return ks
 }
